@@ -10,6 +10,41 @@ TRUST = ("TLC explores the stated finite scopes exhaustively; the Python harness
          "enumerated and seeded cases, not for all inputs.")
 
 P = {
+    "C01": dict(
+        spec="Coding, BigNat, VT, MC_Coding, Trace_Coding",
+        text="Encoder and decoder are step machines (one action per loop iteration, both modes, shuffles, limb arithmetic); TLC runs "
+             "encode -> check -> decode on every order-1 graph of the pattern family x start satisfying the precondition x tables x "
+             "messages up to 3 (4) bits x modes x check lengths with RoundTrip / EncTotal as invariants; every exported behaviour is "
+             "replayed (decode(encode(m)) = m, no exception); seeded graphs of orders 2..5, messages to 4096 bits, random tables and "
+             "checks to length 64 are recorded from the code, the precondition decided and the round trip judged by the trace spec.",
+        tech="TLC model checking of encode/decode step machines + replay of all exported behaviours + trace validation",
+        ref="5/C01"),
+    "C03": dict(
+        spec="Generate, MC_Generate, Trace_Generate",
+        text="Trimming is a round-per-action machine with the declarative largest-closed-subset beside it; TLC checks closedness, the "
+             "Removed action property, error-iff-empty, the latter-map twin, brute-force maximality (small masks) and single-vertex "
+             "monotonicity on all 65 536 order-2 masks x t = 1..4 and exports the retained sets; all 262 144 pairs are replayed into "
+             "connect_coding_graph (bool and int masks; outcome class, accessor, vertex description, input unchanged, "
+             "latter_map_to_accessor(threshold)); seeded masks of orders 3..5 with nested sub-masks are judged by the trace spec.",
+        tech="TLC exhaustive model checking of the trimming machine + exhaustive replay + trace validation",
+        ref="5/C03"),
+    "C05": dict(
+        spec="Coding (DocScheme), MC_Coding, MC_Decode, Trace_Coding, Ind_Mix",
+        text="The published scheme is stated declaratively (little-endian mixed radix over the out-degrees met, table rank, bit pairs "
+             "in fast mode) and TLC checks that the operational encoder satisfies it (DocHolds, DecValue, WalkValue, FastValue); the "
+             "verdict on the code is exact strand/check equality with the specification's encoder on every exported behaviour, and "
+             "exact decoded bits on every enumerated walk (not only encodings); seeded long messages re-computed by TLC with limbs; "
+             "the arithmetic core is inductive for unbounded values (Apalache).",
+        tech="TLC model checking of operational vs declarative scheme + exact replay + trace validation + Apalache lemma",
+        ref="5/C05"),
+    "C06": dict(
+        spec="Coding (decoder outcomes), MC_Decode, Trace_Coding",
+        text="The decoder machine has explicit outcomes; TLC checks AcceptIffWalk on every string up to 3 (4) over {A,C,G,T,foreign} x "
+             "graphs with dead ends and every out-degree x starts x modes x check variants and exports outcome and bits; decode must "
+             "return exactly those bits or raise ValueError and nothing else; fast mode is judged only inside the property's scope, "
+             "decided by TLC; corrupted walks and random strings on orders 2..5 are judged by the trace spec.",
+        tech="TLC model checking of decoder outcomes + replay of all exported cases + trace validation",
+        ref="5/C06"),
     "C13": dict(
         spec="DeBruijn, MC_DeBruijn, Trace_DeBruijn",
         text="TLC checks the index/k-mer/shift-append statements for every vertex of every order up to 6 (7 thorough) on the "
